@@ -291,6 +291,8 @@ def run_case(case):
                         if not onp.allclose(m2, m * c, rtol=5e-3, atol=1e-4 * std * c) or not onp.allclose(s2, s * c, rtol=5e-3):
                             V.append(dict(clause="estimator_units_do_not_scale_with_data", c=c, means=m.tolist(), means_scaled=m2.tolist(), scales=s.tolist(), scales_scaled=s2.tolist()))
                 # pruning percentile: every percentile returns a proper distribution (weights renormalised, positive scales, components a subset)
+                dfull = est.get_dist(percentile=1.0).dist  # nothing pruned: the reference set of components
+                m_all = onp.asarray(dfull.components_distribution.loc, float) if isinstance(dfull, MixtureSameFamily) else m
                 for pct in (0.1, 0.5, 0.9, 0.999):
                     dp = est.get_dist(percentile=pct).dist
                     st["estimator_percentiles_checked"] += 1
@@ -298,7 +300,7 @@ def run_case(case):
                         wp = onp.asarray(dp.mixture_distribution.probs, float)
                         sp = onp.asarray(dp.components_distribution.scale, float)
                         mp = onp.asarray(dp.components_distribution.loc, float)
-                        if abs(wp.sum() - 1) > 1e-5 or (wp < 0).any() or not (sp > 0).all() or len(wp) < 1 or not all(any(abs(a - b) < 1e-6 * max(1, abs(b)) for b in m) for a in mp):
+                        if abs(wp.sum() - 1) > 1e-5 or (wp < 0).any() or not (sp > 0).all() or len(wp) < 1 or not all(any(abs(a - b) < 1e-6 * max(1, abs(b)) for b in m_all) for a in mp):
                             V.append(dict(clause="estimator_percentile_distribution_improper", percentile=pct, w=wp.tolist(), scales=sp.tolist(), means=mp.tolist()))
                 # the returned distribution is usable: samples >= 0, quantile monotone
                 VV, rej = check_dist(dist, dict(kind="mix", w=w.tolist(), loc=m.tolist(), scale=s.tolist(), stochastic=True), st, rnd, 5)
